@@ -28,8 +28,9 @@ RULE = ('one evaluation = one seeded run: (a) a single-client history of push/pu
 RULE += ' ' + 'A fifth of the single-client histories run under JSONDisk (text values, no iteration).'
 RULE += ' ' + 'One seed in 53 places a complete foreign pull at every value-file open of one peek, up to 29 times in a row.'
 RULE += ' ' + "Ordinary keys include '<prefix>-<digits>' texts of other lengths than queue keys."
+RULE += ' ' + 'One seed in 53 lets a producer push items right before the second look of a pull / peek that has just removed expired items.'
 ASSUMPTIONS = ['free-running real producer/consumer processes are replaced by seeded schedules of simulated processes']
-PROBES = ('queue_ops', 'cull_expired', 'lock_wait', 'related_prefixes', 'json_disk', 'lost_races')
+PROBES = ('queue_ops', 'cull_expired', 'lock_wait', 'related_prefixes', 'json_disk', 'lost_races', 'pushes_between_looks')
 TECHNIQUE = 'deterministic simulation: model-based checking of queue histories under a virtual clock; seeded schedules + linearizability against a deque model; consumer crash injection'
 LEVEL_TEXT = ('seeded exploration of queue histories and of producer/consumer interleavings under the simulator, decided by an '
               'executable queue model step by step and by a linearizability search for the concurrent runs (exactly-once and '
@@ -48,6 +49,11 @@ ORDINARY = ['x', 'a', 'b-', -5, {'i': str(10 ** 15)}, {'b': b'a-500000000000000'
 
 def gen_case(seed, tier):
     rng = random.Random('%s/c10' % seed)
+    if seed % 53 == 10:
+        # a consumer finds expired items at its end of the queue, removes them (one transaction each) and looks again; a producer
+        # pushes in the gaps.  What the consumer delivers is at that end of the queue when it looks
+        return {'seed': seed, 'cfg': {'kind': 'gap', 'expired': rng.choice((1, 2, 3)), 'pushes': rng.choice((1, 2, 3)), 'call': rng.choice(('pull', 'peek')),
+                                      'side': rng.choice(('front', 'front', 'back')), 'prefix': rng.choice((None, 'jobs')), 'mfs': rng.choice((0, 2 ** 15))}}
     if seed % 53 == 9:
         n = rng.choice((12, 15, 30))
         return {'seed': seed, 'cfg': {'kind': 'race', 'n': n, 'lost': rng.choice((1, 3, 9, 10, 11, n - 1)), 'call': 'peek',
@@ -346,7 +352,61 @@ def run_race(case):
             'virtual_s': 0.0, 'nontrivial': True, 'outcome': {'ops': cfg['n']}}
 
 
+def run_gap(case):
+    from ..world import World
+    cfg = case['cfg']
+    violations = []
+    world = World(case['seed'], clock={'mode': 'frozen'}, yield_clock=False)
+    sim = world.sim
+    try:
+        dc = world.dc
+        path = world.path('c')
+        cache = dc.Cache(path, disk_min_file_size=cfg['mfs'])
+        other = dc.Cache(path)
+        for i in range(cfg['expired']):
+            cache.push('stale-%d' % i, prefix=cfg['prefix'], expire=1)
+        sim.advance(5)
+        state = {'begins': 0, 'busy': False, 'pushed': []}
+
+        def meanwhile(con, stmt):
+            if state['busy'] or not stmt.startswith('BEGIN') or con.path != cache._con.path or getattr(con, '_verif_owner', None) == 'other':
+                return
+            state['begins'] += 1
+            if state['begins'] == 2:      # the consumer's second look: the producer got in first
+                state['busy'] = True
+                try:
+                    for j in range(cfg['pushes']):
+                        state['pushed'].append(other.push('fresh-%d' % j, prefix=cfg['prefix'], retry=True))
+                finally:
+                    state['busy'] = False
+        other._con._verif_owner = 'other'
+        sim.on_stmt = meanwhile
+        try:
+            got = getattr(cache, cfg['call'])(prefix=cfg['prefix'], side=cfg['side'], retry=True)
+        finally:
+            sim.on_stmt = None
+        want = (None, None)
+        if state['pushed']:
+            k = state['pushed'][0] if cfg['side'] == 'front' else state['pushed'][-1]
+            want = (k, 'fresh-%d' % (0 if cfg['side'] == 'front' else cfg['pushes'] - 1))
+        elif cfg['expired'] < 2:
+            want = (None, None)
+        if tuple(got) != want and state['pushed']:
+            violations.append({'rule': 'C10/wrong-item-after-expired-run', 'sig': cfg['call'],
+                               'detail': '%s(side=%r) removed %d expired item(s); %d item(s) pushed before its next look; it returned %r, the %s of the queue was %r'
+                                         % (cfg['call'], cfg['side'], cfg['expired'], len(state['pushed']), tuple(got), cfg['side'], want)})
+        other.close()
+        cache.close()
+    finally:
+        world.close()
+    digest = hashlib.sha256(json.dumps(case['cfg'], sort_keys=True).encode()).hexdigest()
+    return {'violations': violations, 'digest': digest, 'steps': 6, 'switches': 0, 'fired': {}, 'probes': {'pushes_between_looks': 1, 'queue_ops': 6},
+            'virtual_s': 0.0, 'nontrivial': True, 'outcome': {'ops': 6}}
+
+
 def run_case(case):
+    if case['cfg']['kind'] == 'gap':
+        return run_gap(case)
     if case['cfg']['kind'] == 'race':
         return run_race(case)
     if case['cfg']['kind'] != 'seq':
